@@ -1,6 +1,6 @@
 (* Properties.v - the property theorems and nothing else.  Every theorem is
    closed by [exact <lemma>] and followed by Print Assumptions. *)
-From NTRIP Require Import Base Bits BitsProofs Crc CrcProofs Time Classify Frame FrameSpec FrameProofs Html Queue QueueProofs ClassifyProofs Retry RetryProofs TimeSpec History WriteProofs EncProofs TimeProofs.
+From NTRIP Require Import Base Bits BitsProofs Crc CrcProofs Time Classify Frame FrameSpec FrameProofs Html Queue QueueProofs ClassifyProofs Retry RetryProofs TimeSpec History WriteProofs EncProofs TimeProofs SegProofs.
 From NTRIPGen Require Import ClassifyTable.
 
 (* ===================== C14 ===================== *)
@@ -261,3 +261,51 @@ Theorem C15_state_independent : forall h1 h2 b,
   result_core (get_message h1 b) = result_core (get_message h2 b).
 Proof. exact get_message_state_independent. Qed.
 Print Assumptions C15_state_independent.
+
+(* ===================== C03 ===================== *)
+(* If a stream is a sequence of valid frames (any type, payload 1..1023 bytes, 0xD3 bytes
+   allowed anywhere inside them) interleaved with non-empty runs of other data containing no
+   0xD3, optionally ending in a truncated frame (a non-empty proper prefix of a valid frame),
+   the delivered (type, raw bytes) pairs are exactly those segments in order: each frame once
+   as a typed message holding its own bytes, adjacent runs of other data merged into one
+   non-RTCM message, the truncated tail as a non-RTCM message. *)
+Theorem C03_segments : forall h segs tail, wf_segsb segs = true -> tail_ok tail ->
+  exists ms h', handle_stream h (flatten segs ++ tail) = Ok (ms, h') /\
+                map core ms = expected segs tail.
+Proof. exact segments_delivered. Qed.
+Print Assumptions C03_segments.
+
+Example C03_example :
+  let f := [211; 0; 19; 62; 208; 2; 12; 10; 88; 246; 126; 253; 63; 255; 237; 41; 121; 12; 239; 94; 128; 227; 229; 56; 76]%N in
+  let segs := [Junk [36; 71]; Junk [80]; Frame f; Frame f; Junk [1]]%N in
+  wf_segsb segs = true /\ tail_ok (firstn 9 f) /\
+  expected segs (firstn 9 f) = [((-1)%Z, [36; 71; 80]%N); (1005%Z, f); (1005%Z, f); ((-1)%Z, [1]%N); ((-1)%Z, firstn 9 f)].
+Proof.
+  cbv zeta. split; [vm_compute; reflexivity|]. split; [|vm_compute; reflexivity].
+  right. split; [discriminate|]. eexists. exists (skipn 9 [211; 0; 19; 62; 208; 2; 12; 10; 88; 246; 126; 253; 63; 255; 237; 41; 121; 12; 239; 94; 128; 227; 229; 56; 76]%N).
+  split; [|split; [symmetry; apply firstn_skipn|discriminate]]. vm_compute. reflexivity.
+Qed.
+
+(* ===================== C12 ===================== *)
+(* If in such a stream the payload or CRC bytes of one frame are altered (same length, same
+   3-byte leader, any alteration including new 0xD3 bytes) so that its CRC no longer
+   matches, that frame is delivered as a single non-RTCM message holding exactly its bytes
+   and every other segment is delivered exactly as without the corruption. *)
+Theorem C12_isolation : forall h pre post f' tail,
+  wf_segsb pre = true -> wf_segsb post = true -> bad_frame f' -> tail_ok tail ->
+  exists ms h', handle_stream h (flatten pre ++ f' ++ flatten post ++ tail) = Ok (ms, h') /\
+                map core ms = expected pre [] ++ [((-1)%Z, f')] ++ expected post tail.
+Proof. exact corrupted_frame_isolated. Qed.
+Print Assumptions C12_isolation.
+
+Example C12_example :
+  let f := [211; 0; 19; 62; 208; 2; 12; 10; 88; 246; 126; 253; 63; 255; 237; 41; 121; 12; 239; 94; 128; 227; 229; 56; 76]%N in
+  let f' := [211; 0; 19; 62; 208; 2; 211; 0; 88; 246; 126; 253; 63; 255; 237; 41; 121; 12; 239; 94; 128; 227; 229; 56; 76]%N in
+  bad_frame f'.
+Proof.
+  cbv zeta. split; [|split].
+  - apply bytes_okb_spec. vm_compute. reflexivity.
+  - unfold crc_mismatch. vm_compute. discriminate.
+  - exists [211; 0; 19; 62; 208; 2; 12; 10; 88; 246; 126; 253; 63; 255; 237; 41; 121; 12; 239; 94; 128; 227; 229; 56; 76]%N.
+    split; [vm_compute; reflexivity|]. split; reflexivity.
+Qed.
